@@ -5,3 +5,4 @@ import Cachelito.Core
 import Cachelito.Wrapper
 import Cachelito.System
 import Cachelito.Async
+import Cachelito.ConcData
